@@ -31,7 +31,7 @@ OrderOK(r) ==
         /\ r.ao = ao /\ r.am = am
         /\ r.slots = <<1, 2, 3>>
         /\ r.toxyz = expectXYZ
-        /\ (~RepeatedOf(c) => r.ctorxyz = fromXYZ /\ r.setxyz = fromXYZ /\ r.back = <<10, 20, 30>>)   \* mutually inverse permutations
+        /\ (~RepeatedOf(c) => r.ctorxyz = fromXYZ /\ r.ctorxyz3 = fromXYZ /\ r.setxyz = fromXYZ /\ r.back = <<10, 20, 30>>)   \* mutually inverse permutations
 
 EmatOK(r) ==
     LET t == r.t  c == r.code
